@@ -7,7 +7,20 @@ void* rec_expected_ctx;
 int rec_bad_ctx;
 void rec_reset(void) { rec_n = 0; rec_bad_ctx = 0; }
 
+/* When set, every callback decodes an unrelated buffer before it returns — the way a client decodes CBOR embedded in a
+ * byte string (tag 24, COSE payloads) from inside its byte-string callback. The outer call must not notice. */
+int rec_reenter;
+uint64_t rec_reentered_calls;
 static void rec(void* ctx, int slot, uint64_t arg, const uint8_t* p, uint64_t len) {
+  if (rec_reenter) {
+    static const uint8_t inner[][4] = {{0x19, 0x01, 0x00, 0x00}, {0x42, 0x19, 0x01, 0x00}, {0x5a, 0x00, 0x00, 0x00}, {0x1c, 0, 0, 0}};
+    static const size_t inner_n[] = {3, 3, 4, 1};
+    int save = rec_reenter;
+    rec_reenter = 0; /* the inner call uses the do-nothing table: no recursion */
+    for (int i = 0; i < 4; i++) { struct cbor_decoder_result r = cbor_stream_decode(inner[i], inner_n[i], &cbor_empty_callbacks, NULL); (void)r; }
+    rec_reenter = save;
+    rec_reentered_calls++;
+  }
   if (ctx != rec_expected_ctx) rec_bad_ctx++;
   if (rec_n < REC_MAX) { rec_ev[rec_n].slot = slot; rec_ev[rec_n].arg = arg; rec_ev[rec_n].ptr = p; rec_ev[rec_n].len = len; }
   rec_n++;
